@@ -118,6 +118,7 @@ def model : Model St := { init := {}, step := exact step }
 /-! ## C12e / C12d: one real `DataStreams` endpoint
 
     einit <c|s> <local bi> <local uni> <peer bi> <peer uni> <wbl>,<wbr>,<wu> <strategy>
+    einitlate …same…   (peer parameters not yet received) | rparams | rscid | acceptbi | acceptuni
     open <bi|uni> | stream <sid> <off> <len> <0|1> | reset <sid> <final> | stop <sid> | maxsd <sid> <v>
     sdb <sid> <v> | maxstreams <bi|uni> <v> | blocked <bi|uni> <v> | drain
 -/
@@ -138,6 +139,10 @@ def eObs : EObs → String
   | .ok n ms => s!"ok={n}" ++ String.join (ms.map fun x => s!" ms={dirTok x.1}:{x.2}")
   | .err k => s!"err {errTok k}"
   | .offered b u => s!"bi={idList b} uni={idList u}"
+  | .accepted (some s) => s!"sid={s}"
+  | .accepted none => "pending"
+  | .pendingParams => "pending sb="
+  | .params r => s!"ok ready={if r then 1 else 0}"
   | .panic => "PANIC"
 
 def doE (st : Option Endpoint) (op : EOp) : Option Endpoint × String :=
@@ -164,6 +169,20 @@ def stepE (st : Option Endpoint) (op : List String) : Option Endpoint × String 
         | none => (none, "PANIC")
       | none => (st, "BAD strategy")
     | _, _, _, _, _, _ => (st, "BAD einit")
+  | ["einitlate", role, lb, lu, pb, pu, win, strat] =>
+    match parseRole role, lb.toNat?, lu.toNat?, pb.toNat?, pu.toNat?, parseWin win with
+    | some role, some lb, some lu, some pb, some pu, some win =>
+      match parseStrategy strat lb lu with
+      | some k =>
+        match Endpoint.newLate role lb lu pb pu win k with
+        | some e => (some e, "ok")
+        | none => (none, "PANIC")
+      | none => (st, "BAD strategy")
+    | _, _, _, _, _, _ => (st, "BAD einitlate")
+  | ["acceptbi"] => doE st .acceptBi
+  | ["acceptuni"] => doE st .acceptUni
+  | ["rparams"] => doE st .rparams
+  | ["rscid"] => doE st .rscid
   | ["open", d] =>
     match parseDir d with
     | some d => doE st (.open_ d)
